@@ -210,3 +210,28 @@ pub fn replay_parse(v: &Value) -> Result<bool, String> {
     }
     Ok(bad)
 }
+
+/// Parse in all configurations; a panic anywhere is a violation.
+pub fn parse_all(fmt: Fmt, int: &[u8], frac: &[u8], exp: i32, what: &str) -> Result<[u64; 8], Failure> {
+    let mut out = [0u64; 8];
+    for (i, cfg) in CFGS.iter().enumerate() {
+        match catch(|| cfg.parse(fmt, int, frac, exp)) {
+            Ok(b) => out[i] = b,
+            Err(msg) => {
+                return Err(Failure::violation(
+                    format!("{what}: panic in config {} ({} at {})", cfg.name, msg, last_panic_location()),
+                    format!("panic:{}:{}", cfg.name, fmt.name()),
+                    json!({"kind": "parse", "format": fmt.name(), "config": cfg.name,
+                           "integer": String::from_utf8_lossy(int), "fraction": String::from_utf8_lossy(frac), "exponent": exp,
+                           "extra": {"panic": msg, "location": last_panic_location()}}),
+                ));
+            }
+        }
+    }
+    Ok(out)
+}
+
+pub fn raw_detail(fmt: Fmt, cfg: &str, int: &[u8], frac: &[u8], exp: i32, extra: Value) -> Value {
+    json!({"kind": "parse", "format": fmt.name(), "config": cfg,
+           "integer": String::from_utf8_lossy(int), "fraction": String::from_utf8_lossy(frac), "exponent": exp, "extra": extra})
+}
